@@ -1,3 +1,4 @@
+import PyYetiVerif.Generated.CoordConsts
 /-
 Model of the coordinate-system and rigid-body geometry of pyyeti/nastran/n2p.py (property C14):
 
@@ -13,15 +14,17 @@ Model of the coordinate-system and rigid-body geometry of pyyeti/nastran/n2p.py 
                              and q-set grids;
 * `rbmoveRow`, `Rb.mul`      `rbmove`;   `rbcoordsGrid`  `rbcoords` (3x3 inverse by adjugate);
 * `gaussSolve`               Gaussian elimination (the `Float` stand-in for `scipy.linalg.solve`);
-                             `formrbe3` itself is modelled in `Model/CoordRbe3.lean`, the id / reference
+                             `formrbe3` itself is modelled in `Model/CoordRbe3.lean` / `Model/CoordRbe3Wrap.lean`, the id / reference
                              bookkeeping of `build_coords` in `Model/CoordChain.lean`;
 * `replaceBasic`             `replace_basic_cs`;   `cardOf`  `mkcordcardinfo`.
 
-Core Lean only (no Mathlib).  Every definition is polymorphic over operation classes and a small
+Core Lean only (no Mathlib).  The two thresholds (`tiny`, `tiny12`) are read from
+`Generated/CoordConsts.lean`, which harness/translate/c14_coordconsts.py regenerates from n2p.py.  Every definition is polymorphic over operation classes and a small
 `TransOps` class; it is run at `Float` by `Drivers/C14.lean` and reasoned about at `ℝ` in
 `Lemmas/Coord.lean`, `Props/C14.lean`.
 -/
 namespace PyYetiVerif.Coord
+open PyYetiVerif.Generated
 
 /-- transcendental operations and constants the formulas need (`atan2 y x`) -/
 class TransOps (α : Type) where
@@ -44,8 +47,8 @@ instance : TransOps Float where
   atan2 := Float.atan2
   abs := Float.abs
   pi := 3.141592653589793
-  tiny := 1e-8
-  tiny12 := 1e-12
+  tiny := Float.ofBits CoordConsts.tinyBits
+  tiny12 := Float.ofBits CoordConsts.tiny12Bits
   ofNat := Float.ofNat
 
 @[ext] structure V3 (α : Type) where
